@@ -736,6 +736,9 @@ func decs(v []float64) []string {
 }
 
 func huntAnchor(a Anchor) HuntEntry {
+	if isRound6(a.Fn) {
+		return hunt6(a)
+	}
 	x := parseF(a.X)
 	h, k := a.H, a.K
 	bad := func(hh int, xx float64) bool {
@@ -870,6 +873,9 @@ func runReplay(o Opts) {
 		}
 		ok, detail, label := rel.check(args)
 		res["holds"], res["detail"], res["label"] = ok, detail, label
+	} else if isRound6(e.Fn) {
+		ok, obs, ref, label := oracle6(e.Fn, e.H, e.K, args)
+		res["holds"], res["detail"], res["label"] = ok, fmt.Sprintf("observed %v, reference %v", obs, ref), label
 	} else {
 		ok, obs, ref, label := anchorOracle(e.Fn, e.H, e.K, args[0])
 		res["holds"], res["detail"], res["label"] = ok, fmt.Sprintf("observed %v, closed form %v", obs, ref), label
@@ -909,6 +915,9 @@ func runCorpus(o Opts, path string) {
 			}
 		} else {
 			ok, obs, ref, label := anchorOracle(e.Fn, e.H, e.K, args[0])
+			if isRound6(e.Fn) {
+				ok, obs, ref, label = oracle6(e.Fn, e.H, e.K, args)
+			}
 			if !ok {
 				e.Fails, e.Label, e.ArgsDec = true, label, decs(args)
 				e.Failure = fmt.Sprintf("%s(h/2=%v, x=%v) = %v, closed form %v", e.Fn, float64(e.H)/2, args[0], obs, ref)
